@@ -228,6 +228,26 @@ Proof.
     auto_derive; [exact I|]. field. exact Hw.
 Qed.
 
+(* periodic restraint metric (dihedral, polarPhi, periodic distanceZ): away from the half-period cut *)
+Definition var_ok_h (v : var) (x0 c : R) : Prop :=
+  v_width v <> 0 /\
+  (v_periodic v = false \/
+   (v_periodic v = true /\ 0 < v_period v /\ ValueModel.pdiff Rops (v_period v) (x0 - c) <> - v_period v / 2)).
+
+Lemma harm_derive_gen k v x0 c : var_ok_h v x0 c ->
+  is_derive (fun x => harm_potential Rops k v x c) x0 (- harm_force Rops k v x0 c).
+Proof.
+  intros [Hw [Hp|(Hp & HP & Hcut)]]; [apply harm_derive; assumption|].
+  unfold harm_potential, harm_force, dist2, dist2_lgrad, pdiff, wsq. rewrite Hp.
+  change (fun x => nmul Rops (ndiv Rops (nmul Rops (RestraintModel.half Rops) k) (nmul Rops (v_width v) (v_width v)))
+                     (let d := pdiff_p Rops (v_period v) (nsub Rops x c) in nmul Rops d d))
+    with (fun x => (1 / 2 * k) / (v_width v * v_width v) * ValueModel.per_dist2 Rops (v_period v) x c).
+  evar_last.
+  - apply is_derive_scal. apply (CV.C18.ValueProofs.per_grad_derive (v_period v) x0 c HP Hcut).
+  - unfold ValueModel.per_grad. unfold RestraintModel.two, RestraintModel.half, nhalf. cbn [nmul ndiv nneg nsub nofZ n1 Rops].
+    change (pdiff_p Rops (v_period v) (x0 - c)) with (ValueModel.pdiff Rops (v_period v) (x0 - c)). field. exact Hw.
+Qed.
+
 Lemma lin_derive k v x0 c : v_width v <> 0 ->
   is_derive (fun x => lin_potential Rops k v x c) x0 (- lin_force Rops k v).
 Proof.
@@ -317,6 +337,23 @@ Proof.
                            (fun ic v x => harm_force Rops k (rvar Rops (vat Rops ws v)) x (snd ic)) (length ws) x0); auto.
   - intros a Ha. apply (Hok a Ha).
   - intros a Ha. destruct (Hok a Ha) as (_ & Hw & Hper). apply harm_derive; assumption.
+Qed.
+
+Definition terms_ok_h (cs : list (nat * R)) (ws : list cvar) (x0 : list R) : Prop :=
+  forall ic, In ic cs -> (fst ic < length ws)%nat /\ var_ok_h (rvar Rops (vat Rops ws (fst ic))) (xat Rops x0 (fst ic)) (snd ic).
+
+Lemma terms_ok_h_of cs ws x0 : terms_ok fst cs ws -> terms_ok_h cs ws x0.
+Proof.
+  intros H ic Hin. destruct (H ic Hin) as (Hi & Hw & Hp). split; [exact Hi|]. split; [exact Hw|left; exact Hp].
+Qed.
+
+Lemma bias_force_correct_harmonic_gen k cs ws x0 : terms_ok_h cs ws x0 -> bias_force_correct (BHarmonic k cs) ws x0.
+Proof.
+  intros Hok xs dxs t0 Hx0 Hp. cbn [bias_energy bias_force].
+  apply (separable_correct cs fst (fun ic x => harm_potential Rops k (rvar Rops (vat Rops ws (fst ic))) x (snd ic))
+                           (fun ic v x => harm_force Rops k (rvar Rops (vat Rops ws v)) x (snd ic)) (length ws) x0); auto.
+  - intros a Ha. apply (Hok a Ha).
+  - intros a Ha. destruct (Hok a Ha) as (_ & Hv). apply harm_derive_gen. exact Hv.
 Qed.
 
 Lemma bias_force_correct_linear k cs ws x0 : terms_ok fst cs ws -> bias_force_correct (BLinear k cs) ws x0.
@@ -2412,7 +2449,7 @@ Qed.
 
 Definition bias_guard (b : bias) (ws : list cvar) (x0 : list R) : Prop :=
   match b with
-  | BHarmonic k cs => terms_ok fst cs ws
+  | BHarmonic k cs => terms_ok_h cs ws x0                (* non-periodic, or periodic away from the half-period cut *)
   | BLinear k cs => terms_ok fst cs ws
   | BWalls k lk uk hl hu l => terms_ok fst l ws /\ walls_guard hl hu l x0
   | BMeta hs => forall h, In h hs -> hill_ok ws x0 h                         (* no hill exactly at its truncation radius *)
@@ -2421,7 +2458,7 @@ Definition bias_guard (b : bias) (ws : list cvar) (x0 : list R) : Prop :=
 Lemma bias_guard_ok b ws x0 : bias_guard b ws x0 -> bias_force_correct b ws x0.
 Proof.
   destruct b as [k cs|k lk uk hl hu l|k cs|hs|k dec v ref]; cbn [bias_guard].
-  - apply bias_force_correct_harmonic.
+  - apply bias_force_correct_harmonic_gen.
   - intros [H1 H2]. apply bias_force_correct_walls; assumption.
   - apply bias_force_correct_linear.
   - apply bias_force_correct_meta.
@@ -2486,7 +2523,7 @@ Proof.
       cbn in H. lra.
     + left. cbn. lia.
   - intros b [<-|[<-|[]]]; cbn [bias_guard].
-    + exact T.
+    + apply terms_ok_h_of. exact T.
     + split.
       * intros a [<-|[]]. apply (T (0%nat, 1)). left; reflexivity.
       * intros iw [<-|[]]. cbn [fst snd]. repeat split; try discriminate.
@@ -2512,4 +2549,10 @@ Proof.
     + intros t [<-|[]]. cbn. lra.
     + unfold hill_sqdev, dist2, pdiff, rvar, vat, xat. cbn. lra.
   - unfold abmd_diff, one. cbn. lra.
+Qed.
+
+Lemma ex_periodic : var_ok_h (mkVar 1 true 360 0) 10 350.
+Proof.
+  split; [cbn; lra|]. right. cbn [v_periodic v_period]. split; [reflexivity|]. split; [lra|].
+  rewrite (CV.C18.ValueProofs.pdiff_unique 360 (10 - 350) 20 (-1)); lra.
 Qed.
